@@ -4,11 +4,9 @@ import (
 	"context"
 )
 
-func verif_go(name string, f func())                                               { panic("intrinsic") }
 func verif_quiesce()                                                               { panic("intrinsic") }
 func verif_cancelCtx(parent context.Context) (context.Context, context.CancelFunc) { panic("intrinsic") }
 func verif_parkedCount() int                                                       { panic("intrinsic") }
-func verif_ctx(cancelled bool) context.Context                                     { panic("intrinsic") }
 
 // VerifC16LifecycleCoop: the contract of VerifC16Lifecycle under the symbolic scheduler inside the interpreter.
 func VerifC16LifecycleCoop(waiters, noise, withCancel int) {
